@@ -86,7 +86,7 @@ SWEEP_SCRYPT = ("scryptAndAES128-CBC", "scryptAndAES256-GCM")
 SWEEP_SCRYPT_N = (2, 4, 128, 256, 1024)
 SWEEP_SCRYPT_R = (1, 2, 8, 16)
 SWEEP_SCRYPT_P = (1, 2, 3)
-SWEEP_SCRYPT_BIGN = (32768, 65536)          # with r = p = 1
+SWEEP_SCRYPT_BIGN = ((32768, 1), (65536, 2))          # (N, r) with p = 1; RFC 7914 demands N < 2^(16 r)
 
 
 def pw_of_len(n):
@@ -124,7 +124,7 @@ def sweep_cfgs(base):
                     c.append(dict(base, format="DER", passphrase=P0, protection=prot,
                                   prot_params={"iteration_count": n, "block_size": r, "parallelization": pz}))
         c += [dict(base, format="DER", passphrase=P0, protection=prot,
-                   prot_params={"iteration_count": n, "block_size": 1, "parallelization": 1}) for n in SWEEP_SCRYPT_BIGN]
+                   prot_params={"iteration_count": n, "block_size": r, "parallelization": 1}) for n, r in SWEEP_SCRYPT_BIGN]
     # prot_params absent: the documented defaults (PBKDF2 count 1000, scrypt N 16384 r 8 p 1, 8-octet salt) for every protection
     for prot in PROTS:
         for f in ("DER", "PEM"):
